@@ -134,6 +134,9 @@ class Handler(BaseHTTPRequestHandler):
                 status, extra_headers, payload, content_type = result
                 then = dict(then, status=status, headers=extra_headers)
                 record["status"] = status
+        if then.get("status", 200) in (204, 304) or self.command == "HEAD":
+            payload = b""  # no body for these: leftover bytes would corrupt the keep-alive connection
+        record["response_headers"] = dict(then.get("headers") or {})
         record["response_body"] = payload.decode("latin-1")
         record["response_content_type"] = content_type
         self.send_response(then.get("status", 200))
